@@ -46,3 +46,38 @@ theorem allclose1_self (x : Rat) : allclose1 x x = true := by
   linarith
 
 end Verde
+
+namespace Verde
+
+theorem zipWith_allclose_self (l : List Rat) : (List.zipWith allclose1 l l).all id = true := by
+  induction l with
+  | nil => simp
+  | cons x xs ih => simpa [allclose1_self] using ih
+
+/-- An exact meshgrid passes `meshgrid_to_1d` and gives its axes back (any extra arrays of the same shape). -/
+theorem meshgridTo1d_meshgrid (e n : List Rat) (extras : List Arr2) (he : e ≠ []) (hn : n ≠ [])
+    (hex : (extras.all fun x => isRect x n.length e.length) = true) :
+    meshgridTo1d (meshgrid e n).1 (meshgrid e n).2 extras = .ok (e, n) := by
+  obtain ⟨n0, ns, rfl⟩ := List.exists_cons_of_ne_nil hn
+  obtain ⟨e0, es, rfl⟩ := List.exists_cons_of_ne_nil he
+  have hcol : ((n0 :: ns).map fun y => (e0 :: es).map fun _ => y).map (fun row => row.headD 0) = n0 :: ns := by
+    rw [List.map_map]
+    conv_rhs => rw [← List.map_id (n0 :: ns)]
+    apply List.map_congr_left
+    intro y _; simp
+  have hrect1 : isRect ((n0 :: ns).map fun _ => e0 :: es) (ns.length + 1) (es.length + 1) = true := by
+    simp [isRect]
+  have hrect2 : isRect ((n0 :: ns).map fun y => (e0 :: es).map fun _ => y) (ns.length + 1) (es.length + 1) = true := by
+    simp [isRect]
+  have hmesh : checkMeshgrid ((n0 :: ns).map fun _ => e0 :: es)
+      ((n0 :: ns).map fun y => (e0 :: es).map fun _ => y) = true := by
+    simp [checkMeshgrid, allclose1_self, zipWith_allclose_self]
+  have hnc : ncols ((n0 :: ns).map fun _ => e0 :: es) = es.length + 1 := by simp [ncols]
+  have hlen : ((n0 :: ns).map fun _ => e0 :: es).length = ns.length + 1 := by simp
+  have hex' : (extras.all fun x => isRect x (ns.length + 1) (es.length + 1)) = true := by simpa using hex
+  unfold meshgrid meshgridTo1d
+  simp only [hnc, hlen, hrect1, hrect2, hmesh, hex', Bool.and_self, Bool.not_true, Bool.false_eq_true,
+    if_false, hcol]
+  simp
+
+end Verde
